@@ -28,6 +28,10 @@ type inflate struct {
 	dynHdr         dynamicHeaderReader // temp objects for processing header
 
 	roffset int64
+
+	// fixedBlock tells whether the current Huffman block uses the fixed code
+	// (kept last: the assembly addresses the fields above by offset)
+	fixedBlock bool
 }
 
 type dynamicHeaderReader struct {
